@@ -1,6 +1,7 @@
 package main
 
 import (
+	"go/token"
 	"fmt"
 	"os"
 	"path/filepath"
@@ -56,6 +57,25 @@ func verifyFunction(prog *Program, specs *Specs, key string) (res *FuncResult) {
 	typeTagMu.Lock()
 	defer typeTagMu.Unlock()
 	r.verifyTop()
+	if r.fatal == "" && !r.discover && r.spec != nil {
+		for _, name := range r.spec.Barriers {
+			// structural obligation: a panic of the user function must abort nothing but its own call
+			bad := barrierViolations(fn, name)
+			goal := tTrue
+			text := "every call of " + name + " is the body of a function literal without loops whose deferred literal calls recover() (a panicking " + name + " aborts only its own call)"
+			if len(bad) > 0 {
+				goal = tFalse
+				text += " - not so at " + strings.Join(bad, ", ")
+			}
+			props := r.spec.BarrierProps
+			if len(props) == 0 {
+				props = r.spec.Props
+			}
+			o := &Obligation{Name: funcKey(fn) + "/barrier#" + name, Kind: "carried", Func: funcKey(fn), Props: props,
+				Pos: r.posString(fn.Pos()), Text: text, mark: r.ctx.Mark(), goal: goal, ctx: r.ctx}
+			r.obls = append(r.obls, o)
+		}
+	}
 	if r.fatal == "" && !r.discover {
 		for _, uf := range r.unfiredAnchors() {
 			// the contract speaks about a program point (a lock, a call, a go statement) that the code no longer has:
@@ -850,4 +870,89 @@ func explain(o *Obligation, timeoutS int) string {
 		fmt.Fprintf(&b, "    %-5s %s\n", val(c.S), o.splitPos[i])
 	}
 	return b.String()
+}
+
+// barrierViolations: calls of the function-typed variable `name` (a parameter, local or captured variable of fn or of
+// the literals nested in it) that do not sit behind their own recover barrier.
+func barrierViolations(fn *ssa.Function, name string) []string {
+	var bad []string
+	found := false
+	var visit func(f *ssa.Function)
+	visit = func(f *ssa.Function) {
+		for _, b := range f.Blocks {
+			for _, ins := range b.Instrs {
+				call, ok := ins.(*ssa.Call)
+				if !ok || call.Call.IsInvoke() {
+					continue
+				}
+				if !valueNamed(call.Call.Value, name) {
+					continue
+				}
+				found = true
+				if hasLoops(f) || !defersRecover(f) {
+					bad = append(bad, f.Name()+" (line "+fmt.Sprint(f.Prog.Fset.Position(ins.Pos()).Line)+")")
+				}
+			}
+		}
+		for _, a := range f.AnonFuncs {
+			visit(a)
+		}
+	}
+	visit(fn)
+	if !found {
+		bad = append(bad, "no call of "+name+" found")
+	}
+	return bad
+}
+
+// valueNamed: the value is (a load of) a parameter, local or captured variable with that source name.
+func valueNamed(v ssa.Value, name string) bool {
+	switch x := v.(type) {
+	case *ssa.Parameter:
+		return x.Name() == name
+	case *ssa.FreeVar:
+		return x.Name() == name
+	case *ssa.UnOp:
+		if x.Op == token.MUL {
+			switch a := x.X.(type) {
+			case *ssa.Alloc:
+				return a.Comment == name
+			case *ssa.FreeVar:
+				return a.Name() == name
+			}
+		}
+	}
+	return false
+}
+
+// defersRecover: the function defers a literal that calls recover().
+func defersRecover(f *ssa.Function) bool {
+	for _, b := range f.Blocks {
+		for _, ins := range b.Instrs {
+			d, ok := ins.(*ssa.Defer)
+			if !ok {
+				continue
+			}
+			var lit *ssa.Function
+			switch x := d.Call.Value.(type) {
+			case *ssa.MakeClosure:
+				lit, _ = x.Fn.(*ssa.Function)
+			case *ssa.Function:
+				lit = x
+			}
+			if lit == nil {
+				continue
+			}
+			for _, lb := range lit.Blocks {
+				for _, li := range lb.Instrs {
+					if c, ok := li.(*ssa.Call); ok {
+						if bi, ok := c.Call.Value.(*ssa.Builtin); ok && bi.Name() == "recover" {
+							return true
+						}
+					}
+				}
+			}
+		}
+	}
+	return false
 }
